@@ -127,3 +127,28 @@ def run(prop, tier, seed):
                            "TLC integers are 32-bit: the int64 range is reached through the scale map and exact big-integer arithmetic in the driver"]}
     finally:
         shutil.rmtree(wd, ignore_errors=True)
+
+
+def table(prop, tier, seed, module, cfg_q, cfg_t, gotest, marker, rule_text, violation_rule, assume, variants=1):
+    """Generic: TLC checks the specification's invariants and prints one line per terminal case;
+    the Go driver replays every case on the real code."""
+    t0 = time.time()
+    wd = core.workdir(prop)
+    try:
+        binary = core.build_harness(wd)
+        f, st, tr = tlc_to_file(module, cfg_q if tier == "quick" else cfg_t, wd, "table.out", workers=8)
+        bad, done, _ = go_rows(binary, gotest, f, wd, "tab", core.NCPU)
+        lines, nviol = [], len(bad)
+        os.makedirs(os.path.join(core.ROOT, "replays"), exist_ok=True)
+        for b in bad[:8]:
+            path = os.path.join(core.ROOT, "replays", "%s-case-%d.json" % (prop, b.get("row", 0)))
+            json.dump(dict(b, property=prop), open(path, "w"))
+            lines.append("VIOLATION property=%s replay=%s rule=%s %s" % (prop, path, violation_rule, str(b.get("msg"))[:180]))
+        ex = open(f).read().split('<<"%s", ' % marker)
+        cov = {"states": st, "transitions": tr, "traces_validated_against_impl": done * variants,
+               "samples": [{"case": ex[1][:400] if len(ex) > 1 else ""}], "evaluations": done * variants, "distinct_nontrivial": done,
+               "rule": rule_text, "exhaustive": True, "checker_cmd": "tlc %s (%s) ; harness.test %s" % (module, cfg_q if tier == "quick" else cfg_t, gotest)}
+        lines.append("%s %s table: %d cases, %d violations, %.1fs" % (prop, tier, done, nviol, time.time() - t0))
+        return {"cov": cov, "lines": lines, "nviol": nviol, "assume": assume}
+    finally:
+        shutil.rmtree(wd, ignore_errors=True)
